@@ -971,12 +971,16 @@ theorem src_ss_seek0_eq_model (lfuel : Nat) (st : SS) (s : SStr) (p : Nat) (h : 
   have hrel := ht.2
   have ht0 : ((0 : Nat) : Int) = 0 := rfl
   rw [ht0] at htr
+  -- a source that refuses negative positions first (`if pos < 0: raise ValueError`) takes the same path for `p : Nat`
+  have hp0 : ((p : Int) < 0) = False := by simp
+  have hp0' : ((0 : Int) ≤ (p : Int)) = True := by simp
   refine ⟨?_, ?_⟩
   · simp [SpooledStringIO.seek0, SpooledStringIO.seek0.body, src_ss_checkClosed_eq_model, CFile.seek,
-      htr, ht.1, src_ss_tell_eq_model, hc1]
+      htr, ht.1, src_ss_tell_eq_model, hc1, hp0, hp0']
   · constructor <;>
       simp [SpooledStringIO.seek0, SpooledStringIO.seek0.body, src_ss_checkClosed_eq_model, CFile.seek,
-        htr, ht.1, src_ss_tell_eq_model, hc1, SStr.seek, hrel.stream, hrel.reader, hrel.real, hrel.max, hrel.chunk]
+        htr, ht.1, src_ss_tell_eq_model, hc1, SStr.seek, hrel.stream, hrel.reader, hrel.real, hrel.max, hrel.chunk,
+        hp0, hp0']
 
 /-- an unknown `mode`: ValueError, nothing moves (open object) -/
 theorem src_ss_seek_bad_mode (lfuel : Nat) (st : SS) (p mode : Int) (h : st.buffer.closed = false)
@@ -1132,12 +1136,16 @@ theorem src_ss_seek_set_eq_model (lfuel : Nat) (st : SS) (s : SStr) (p : Nat) (h
   have hrel := ht.2
   have ht0 : ((0 : Nat) : Int) = 0 := rfl
   rw [ht0] at htr
+  -- a source that refuses negative positions first (`if pos < 0: raise ValueError`) takes the same path for `p : Nat`
+  have hp0 : ((p : Int) < 0) = False := by simp
+  have hp0' : ((0 : Int) ≤ (p : Int)) = True := by simp
   refine ⟨?_, ?_⟩
   · simp [SpooledStringIO.seek, SpooledStringIO.seek.body, src_ss_checkClosed_eq_model, CFile.seek,
-      htr, ht.1, src_ss_tell_eq_model, hc1]
+      htr, ht.1, src_ss_tell_eq_model, hc1, hp0, hp0']
   · constructor <;>
       simp [SpooledStringIO.seek, SpooledStringIO.seek.body, src_ss_checkClosed_eq_model, CFile.seek,
-        htr, ht.1, src_ss_tell_eq_model, hc1, SStr.seek, hrel.stream, hrel.reader, hrel.real, hrel.max, hrel.chunk]
+        htr, ht.1, src_ss_tell_eq_model, hc1, SStr.seek, hrel.stream, hrel.reader, hrel.real, hrel.max, hrel.chunk,
+        hp0, hp0']
 
 /-- `seek(n, os.SEEK_CUR)`: traverse `n` code points from `_tell` on, no rewind — `SStr.seekCur`; returns `_tell + n` -/
 theorem src_ss_seek_cur_eq_model (lfuel : Nat) (st : SS) (s : SStr) (n : Nat) (h : RelS st s)
